@@ -97,8 +97,8 @@ func zzH_C01_api() {
 // zzC01Star: `*` listed together with discrete patterns, at every position:
 // the configuration allows every origin, wherever the `*` stands.
 func zzC01Star(pool, maxO int) {
-	before := zzChoose(3) // patterns listed before the `*`
-	after := zzChoose(3)  // and after it
+	before := zzChoose(2) // patterns listed before the `*`
+	after := zzChoose(2)  // and after it
 	var list []string
 	for i := 0; i < before; i++ {
 		list = append(list, zzC01Pool[zzChoose(pool)].raw)
